@@ -19,9 +19,10 @@ fn proj(files: Vec<(&str, Vec<u8>)>, sources: Vec<&str>, cmds: Vec<(String, Vec<
 pub fn corner_projects() -> Vec<(String, Project, Vec<&'static str>)> {
     let mut v = vec![];
     // 1. the first line is longer than the 8 KiB reader buffer, CRLF / LF: the line ending is that of the first line
-    for (le, tag) in [("\r\n", "crlf"), ("\n", "lf")] {
+    //    (round 15: also longer than 16 KiB and 64 KiB - a probe window of any such size must not decide the ending)
+    for (le, tag, len) in [("\r\n", "crlf", 9000usize), ("\n", "lf", 9000), ("\r\n", "crlf-17k", 17000), ("\r\n", "crlf-70k", 70000)] {
         let mut s = Vec::new();
-        s.extend(std::iter::repeat(b'a').take(9000));
+        s.extend(std::iter::repeat(b'a').take(len));
         s.extend_from_slice(le.as_bytes());
         s.extend_from_slice(format!("second{le}-TXTPP#temp long_t.tmp{le}-b1{le}-b2{le}~{le}# TXTPP#write w1{le}last{le}").as_bytes());
         v.push((format!("long-first-line-{tag}"), proj(vec![("long.txt.txtpp", s)], vec!["long.txt.txtpp"], vec![], "long-first-line"), vec!["build", "needed"]));
@@ -174,6 +175,25 @@ pub fn corner_projects() -> Vec<(String, Project, Vec<&'static str>)> {
     {
         let g = b"TXTPP#include hdr2.md\n-TXTPP#write see:\n-TXTPP#include guide.md\n~\nend\n".to_vec();
         v.push(("continuation-spelling-an-include-after-a-dependency".to_string(), proj(vec![("guide.md.txtpp", g), ("hdr2.md.txtpp", b"H\n".to_vec())], vec!["guide.md.txtpp", "hdr2.md.txtpp"], vec![], "continuation-include"), vec!["build", "needed"]));
+    }
+    // 21. (round 15) tag names are the whole trimmed argument, inner blanks and comment closers included (README example);
+    //     two names sharing their first word are different tags
+    {
+        let src = b"<!-- TXTPP#tag PRE_CONTENT -->\n<!-- TXTPP#write stored text\n<pre>PRE_CONTENT --></pre>\n".to_vec();
+        v.push(("tag-name-with-comment-closer".to_string(), proj(vec![("tn.html.txtpp", src)], vec!["tn.html.txtpp"], vec![], "tag-name-blanks"), vec!["build"]));
+        let src = b"TXTPP#tag SECTION A\n-TXTPP#write alpha\nTXTPP#tag SECTION B\n-TXTPP#write beta\n[SECTION B] [SECTION A]\nSECTION stays\n".to_vec();
+        v.push(("tag-names-sharing-first-word".to_string(), proj(vec![("ts.txt.txtpp", src)], vec!["ts.txt.txtpp"], vec![], "tag-name-blanks"), vec!["build", "needed"]));
+    }
+    // 20. (round 15) prefixes longer than 24 / 64 bytes: a following line continues the block only with exactly as many
+    //     spaces as the prefix is long (or the prefix itself); fewer spaces end the block and the line is ordinary text
+    for plen in [23usize, 25, 28, 66] {
+        let prefix = format!("/*{}*/ ", "-".repeat(plen - 5));
+        let sp = |k: usize| " ".repeat(k);
+        let src = format!(
+            "{prefix}TXTPP#write one\n{}two\n{}row | kept as text\n{prefix}TXTPP#write three\n{}x | text\n{prefix}TXTPP#write five\n{}six\n{}seven | text\nend\n",
+            sp(plen), sp(plen - 1), sp(24.min(plen - 1)), sp(plen), sp(plen + 1),
+        );
+        v.push((format!("long-prefix-{plen}"), proj(vec![("lp.txt.txtpp", src.into_bytes())], vec!["lp.txt.txtpp"], vec![], "long-prefix"), vec!["build"]));
     }
     v
 }
